@@ -90,7 +90,17 @@ theorem Rep.assign {K : PCtx} {exitJ : Nat} (wf : K.WFS exitJ) {σ σ' : X.St} {
       · subst hmn; exact Or.inl ⟨o, hl⟩
       · simpa [hmn] using hv
     · exact hv
-  · rw [Mem.read_write_other _ _ _ _ (wf.loc_ne_link n a hloc)]; exact hr.link
+  · intro a' ha'
+    have hv : IsVar K.xc σ n := by
+      unfold IsVar
+      rcases writeName_cases K.xc σ σ' n w hw with ⟨o, hl, _⟩ | ⟨hl, hg, _⟩
+      · exact Or.inl ⟨o, hl⟩
+      · exact Or.inr ⟨hl, hg⟩
+    obtain ⟨a2, hl2, hlt2⟩ := hr.locs n hv
+    rw [hloc] at hl2
+    simp only [Option.some.injEq] at hl2
+    subst hl2
+    rw [Mem.read_write_other _ _ _ _ (by omega)]; exact hr.above a' ha'
   · rw [Mem.read_write_other _ _ _ _ (by omega)]; exact hr.sp
   · intro m w' hm hrd
     by_cases hmn : m = n
